@@ -396,7 +396,7 @@ def main():
     proof_ok, pinfo = coqcheck.proof_status(prop)
     os.environ.pop('PYTHONDONTWRITEBYTECODE', None)
     os.environ['VERIF_BYTECODE'] = '1'
-    n, nops, proc_every = (2200, 40, 6) if thorough else (330, 24, 8)
+    n, nops, proc_every = (8000, 40, 6) if thorough else (330, 24, 8)
     results = []
     if pinfo.get('build_ok'):
         nproc = min(16, os.cpu_count() or 4)
